@@ -13,15 +13,22 @@ from .extract import VERIF
 WDIR = os.path.join(VERIF, 'witness')
 BIN = os.path.join(WDIR, 'target', 'debug', 'witness')
 
-# obligation label (regex) -> witness kind
-LABEL_KINDS = [
-    (r'^C12\.prefix_', 'apath_prefix'),
-    (r'^C11\.cmp_', 'apath_cmp'),
-    (r'^C11\.valid_', 'apath_valid'),
-]
+# Registry: units/<unit>.witness.json = [{"label_re": "...", "kind": "<native witness kind>"} |
+#                                         {"label_re": "...", "cmd": ["prog", "arg", ...]}]
+# `kind` is served by /verif/witness (src/w_*.rs); `cmd` is any command that prints one JSON object
+# {"found": bool, "input": .., "real": .., "expected": .., "explain": .., "replay_cmd": ..} (e.g. a Kani harness driver).
 
-# witness kinds that are driven by Kani harnesses instead of the native search
-KANI_KINDS = {}
+
+def registry():
+    import glob
+    regs = []
+    for p in sorted(glob.glob(os.path.join(VERIF, 'units', '*.witness.json'))):
+        try:
+            for e in json.load(open(p)):
+                regs.append(e)
+        except ValueError:
+            pass
+    return regs
 
 
 def build(timeout=1800):
@@ -51,32 +58,49 @@ def run_witness(mode, kind, inp=None, timeout=900):
     return {'found': False, 'error': 'witness produced no JSON (rc=%s): %s' % (p.returncode, p.stderr.decode('utf-8', 'replace')[-500:])}
 
 
-def kinds_for(fail):
-    ks = []
-    for lab in fail.get('labels', []):
-        for pat, k in LABEL_KINDS:
-            if re.search(pat, lab) and k not in ks:
-                ks.append(k)
-    for k in fail.get('witness_kinds', []):
-        if k not in ks:
-            ks.append(k)
-    return ks
+def entries_for(fail):
+    es = []
+    labs = list(fail.get('labels', [])) or [fail.get('obligation', '')]
+    for lab in labs:
+        for e in registry():
+            if re.search(e['label_re'], lab) and e not in es:
+                es.append(e)
+    return es
+
+
+def run_cmd(cmd, timeout=900):
+    p = subprocess.run(cmd, stdout=subprocess.PIPE, stderr=subprocess.PIPE, timeout=timeout, cwd=VERIF)
+    for ln in reversed(p.stdout.decode('utf-8', 'replace').strip().split('\n')):
+        if ln.startswith('{'):
+            try:
+                return json.loads(ln)
+            except ValueError:
+                pass
+    return {'found': False, 'error': 'no JSON from %s (rc=%s): %s' % (cmd, p.returncode, p.stderr.decode('utf-8', 'replace')[-400:])}
 
 
 def find_witness(pid, fail, replay):
-    ks = kinds_for(fail)
-    if not ks:
+    es = entries_for(fail)
+    if not es:
         return None
-    ok, log = build()
-    if not ok:
-        replay['witness_error'] = 'witness crate did not build against the working tree: ' + log[-600:]
-        return None
-    for k in ks:
-        r = run_witness('search', k)
-        replay.setdefault('witness_runs', []).append({'kind': k, 'result': {x: r[x] for x in r if x != 'input'}})
+    built = None
+    for e in es:
+        if 'kind' in e:
+            if built is None:
+                built, log = build()
+                if not built:
+                    replay['witness_error'] = 'witness crate did not build against the working tree: ' + log[-600:]
+            if not built:
+                continue
+            r = run_witness('search', e['kind'])
+            rc = '%s replay %s %s' % (BIN, e['kind'], json.dumps(json.dumps(r.get('input'))))
+        else:
+            r = run_cmd(e['cmd'])
+            rc = r.get('replay_cmd') or ' '.join(e['cmd'])
+        replay.setdefault('witness_runs', []).append({'entry': e, 'result': {x: r[x] for x in r if x != 'input'}})
         if r.get('found'):
-            return {'kind': k, 'input': r.get('input'), 'real': r.get('real'), 'expected': r.get('expected'),
-                    'explain': r.get('explain'), 'replay_cmd': '%s replay %s %s' % (BIN, k, json.dumps(json.dumps(r.get('input'))))}
+            return {'kind': e.get('kind'), 'cmd': e.get('cmd'), 'input': r.get('input'), 'real': r.get('real'),
+                    'expected': r.get('expected'), 'explain': r.get('explain'), 'replay_cmd': rc}
     return None
 
 
@@ -94,7 +118,10 @@ def replay(path):
     if not ok:
         print('witness crate does not build: ' + log)
         return 2
-    r = run_witness('replay', ce['kind'], ce['input'])
+    if not ce.get('kind'):
+        r = run_cmd(ce['cmd'])
+    else:
+        r = run_witness('replay', ce['kind'], ce['input'])
     print(json.dumps(r, indent=1, ensure_ascii=False))
     if r.get('found'):
         print('REPRODUCED on the real crate')
